@@ -15,6 +15,29 @@ pub fn check_bytes(b: &[u8], rec: &mut Rec) -> CheckResult {
         let raw = fst::raw::Fst::new(b);
         let map = fst::Map::new(b);
         let set = fst::Set::new(b);
+        // swapping the bytes in behind an already open Fst / Map / Set is another way of opening
+        // them (inputs up to 4 KiB: each route copies the input)
+        static TINY: std::sync::OnceLock<Vec<u8>> = std::sync::OnceLock::new();
+        let tiny = || TINY.get_or_init(|| fst::raw::Builder::memory().into_inner().expect("empty fst")).clone();
+        let pick = crate::engine::fnv(&b[..b.len().min(64)]) % 3;
+        if b.len() <= 4096 && pick == 0 {
+            if let Ok(f) = fst::raw::Fst::new(tiny()).and_then(|f| f.map_data(|_| b.to_vec())) {
+                let _ = (f.len(), f.is_empty(), f.fst_type(), f.size());
+                let _ = f.verify();
+            }
+        }
+        if b.len() <= 4096 && pick == 1 {
+            if let Ok(m) = fst::Map::new(tiny()).and_then(|m| m.map_data(|_| b.to_vec())) {
+                let _ = (m.len(), m.is_empty(), m.as_fst().size());
+                let _ = m.as_fst().verify();
+            }
+        }
+        if b.len() <= 4096 && pick == 2 {
+            if let Ok(m) = fst::Set::new(tiny()).and_then(|m| m.map_data(|_| b.to_vec())) {
+                let _ = (m.len(), m.is_empty(), m.as_fst().size());
+                let _ = m.as_fst().verify();
+            }
+        }
         // (the three front ends are not required to agree on what opens: a wrapper may
         // legitimately validate more; each of them only has to be total)
         match raw {
@@ -209,7 +232,7 @@ fn check_long(l: &usize, v: &u64, seed: u64, rec: &mut Rec) -> CheckResult {
 }
 
 pub fn run(e: &Engine) {
-    e.set_rule("cases are byte strings: (1) an exhaustive header/footer grid for every length 0..64 x 9 version values x 80 root addresses (0,1,15,16,17, L-40..L+10, 2^32, 2^63, u64::MAX-21..u64::MAX) x 3 key counts x 3 fillers; (2) random byte strings biased toward lengths 30..40; (3) every truncation and every single-byte xor of valid FSTs (small shapes and the golden files) plus insertions and appended junk; oracle under catch_unwind: Fst::new, Map::new, Set::new never panic (whether they agree with each other on malformed input is recorded, not required); on Ok: len, is_empty, fst_type, size, as_bytes, to_vec, verify never panic, size()==input length, as_bytes()==input; non-trivial = input of length >= 36 with a supported version or of length 32..35 (gets past the gates); distinct by content hash");
+    e.set_rule("cases are byte strings: (1) an exhaustive header/footer grid for every length 0..64 x 9 version values x 80 root addresses (0,1,15,16,17, L-40..L+10, 2^32, 2^63, u64::MAX-21..u64::MAX) x 3 key counts x 3 fillers; (2) random byte strings biased toward lengths 30..40; (3) every truncation and every single-byte xor of valid FSTs (small shapes and the golden files) plus insertions and appended junk; oracle under catch_unwind: Fst::new, Map::new, Set::new and Fst/Map/Set::map_data onto the input never panic (whether they agree with each other on malformed input is recorded, not required); on Ok: len, is_empty, fst_type, size, as_bytes, to_vec, verify never panic, size()==input length, as_bytes()==input; non-trivial = input of length >= 36 with a supported version or of length 32..35 (gets past the gates); distinct by content hash");
     e.assume("root(), get, stream on malformed-but-openable input may panic (documented) and are not asserted; the harness is built with debug assertions and overflow checks on, so arithmetic overflow in the opening path would also be reported");
     let seed = e.seed;
     e.run_enum("header-footer-grid", 65 * 9 * 80 * 3 * 3, |idx, rec| {
